@@ -4,6 +4,7 @@
    (real optimizer output vs input under the evaluator, and -O1..-O3 vs -O0 on the
    implementation) are decided by the translation-validation tie in tools/props/c01.py. *)
 From Coq Require Import String.
+From Aelys Require Import Extracted.ValueConsts Extracted.Opcodes Model.Value Model.VmArith Proofs.FoldVmProofs.
 From Aelys Require Import Base.Tactics Model.Lang Model.Eval Extracted.OptConsts Model.Opt.Fold
   Model.PureEval Proofs.EvalProofs Proofs.FoldProofs Proofs.PureProofs.
 Local Open Scope Z_scope.
@@ -44,6 +45,13 @@ Proof. exact fold_refuses_div_zero. Qed.
 Theorem C01_fold_refuses_out_of_range : forall (op : binop) (a b : Z),
   in_vm_range a = false \/ in_vm_range b = false -> fold_int_binary op a b = None.
 Proof. exact fold_refuses_out_of_range. Qed.
+
+(* folding == runtime, against the VM itself: the folded literal, NaN-boxed, is bit for bit the
+   word the VM's generic (dynamically checked) operation computes on the boxed operands *)
+Theorem C01_fold_equals_vm_runtime : forall (op : binop) (a b : Z) (e : expr),
+  fold_int_binary op a b = Some e ->
+  exists w, box_lit e = Some w /\ vm_generic op (v_int a) (v_int b) = VmArith.ROk w.
+Proof. exact fold_int_binary_vm_sound. Qed.
 
 (* the folder's whole bottom-up traversal preserves the meaning of every pure expression
    (literals, variables, operators, short-circuit and/or, if-expressions) in every
